@@ -342,6 +342,7 @@ def live_tier(tier, seed, stats):
 
 
 PROP = Property(
+    prelude=True,
     id="C06",
     level="exploration",
     rule=("Hypothesis generates kernel-formatted stat/status/task records "
